@@ -14,6 +14,7 @@ CONSTANTS ModelSel,     \* which of the three model parameters the generated cal
 AllModel == <<"planet_radius", "T", "H2O">>
 MCParams == AllModel \o <<"offset">>
 MCCallParams == {AllModel[i] : i \in ModelSel} \cup {"offset"}
+MCObsParams == {"offset"}
 MCDerived == <<"logg", "mu">>
 FullSetting == [planet_radius |-> [fit |-> TRUE,  mode |-> "linear", lo |-> -1,  hi |-> 1],
                 T             |-> [fit |-> FALSE, mode |-> "linear", lo |-> 2,   hi |-> 4],
@@ -46,9 +47,22 @@ HistBound == Len(hist) < MaxLevel
 ExNext == KnownCall \/ Unknown("enable_fit", "nope") \/ Unknown("disable_derived", "nope")
 ExSpec == Init /\ [][ExNext]_vars
 
+\* export of "preset" histories (binding C): any subset of the parameters is made the fitted set (only
+\* observation parameters, none, all, ...), then one optional setting / set_prior call, compile, and one of
+\* update_model / write_back / a second compile; after every call all views are evaluated
+SettingLite == \E p \in CallParams :
+                  \/ \E m \in {"linear", "log"} : SetMode(p, m)
+                  \/ \E b \in BoundPairs : SetBoundary(p, b)
+                  \/ \E f \in Factors : SetFactorBoundary(p, f)
+PresetNext == CASE Len(hist) = 0 -> PresetCall
+                [] Len(hist) = 1 -> SettingLite \/ PriorCall \/ Compile
+                [] Len(hist) = 2 -> Compile
+                [] OTHER         -> UpdateCall \/ WriteBack \/ Compile
+PresetSpec == Init /\ [][PresetNext]_vars
+
 \* simulation: choose the class of call first so that compile / update_model are not drowned
 \* by the many argument combinations of the setters
-Classes == {"setting", "setting2", "prior", "derived", "compile", "compile2", "update", "writeback", "unknown"}
+Classes == {"setting", "setting2", "prior", "derived", "compile", "compile2", "update", "writeback", "unknown", "preset"}
 \* (the history is printed when the behaviour's last state is expanded: once per behaviour)
 SimNext == /\ (Export = "sim" /\ Len(hist) = MaxLevel - 1) => PrintT(<<"BEH", ToJson([h |-> hist])>>)
            /\ LET c == RandomElement(Classes) IN
@@ -58,6 +72,7 @@ SimNext == /\ (Export = "sim" /\ Len(hist) = MaxLevel - 1) => PrintT(<<"BEH", To
                [] c \in {"compile", "compile2"} -> Compile
                [] c = "update"    -> UpdateCall
                [] c = "writeback" -> WriteBack
+               [] c = "preset"    -> PresetCall
                [] OTHER           -> UnknownCall
 SimSpec == Init /\ [][SimNext]_vars
 =============================================================================
